@@ -130,6 +130,10 @@ func NewRun(s *Spec, m *Model, faults []rt.Fault, closeFaults []rt.CloseFault) *
 					r.RegPanics[i] = p
 				}
 			}()
+			if reg.Remove {
+				r.RegErrs[i] = reg.AddTo(r.Coll)
+				return
+			}
 			if reg.Ctor < 0 {
 				v := pool.Types[reg.Value].NewValue()
 				inst := rt.InstOf(v)
